@@ -14,7 +14,7 @@ RULE = ('exhaustive small scope per routine: source shapes rank 1..3 / extents 1
         'repeat scalar 1..3 and per-element counts 0..3, every axis incl. negative and None; roll shifts in [-2n,2n] per axis and '
         '[-2N,2N] flat, every axis incl. negative, distinct axis tuples with mixed signs, repeated axes; pad widths 0..2 per side; take '
         'index lists with negative and repeated entries; concatenate / stack family over every axis and compatible second shape; '
-        'split sections and cut lists; sliding_window windows 1..extent; diagonal / tril / triu / tri / eye offsets in [-3,3] ([-5,5] thorough); '
+        'split sections and cut lists (interior / repeated / beyond the extent / descending, 1..3 cut points); sliding_window windows 1..extent (scalar, lists over axis None and over every axis list of length 1..2 incl. negative and repeated axes for rank <= 3); diagonal every axis pair in both spellings x every offset in [-3,3] ([-5,5] thorough) for rank <= 3 (rank 4: sampled offsets in the quick tier, all in the thorough tier); tril / triu / tri / eye offsets in the same range; '
         'where / compress over 0/1 patterns; resize targets 1..4; expand spacing 0..2; arange / linspace over integer and quarter grids. '
         'Every request is answered by the C++ view (IMPL), by the Lean model where one exists (all but arange/linspace/full/zeros/ones), '
         'and by NumPy or the documented definition (ORACLE). non-trivial = the generator marked the result as different from the source')
@@ -41,7 +41,7 @@ MANIFEST = dict(
           'model of the index functions of tile, repeat (scalar / per-element / axis None, every accepted axis incl. negative), roll (any shift, one axis / '
           'several axes incl. repeated ones = summed shifts / None), pad, take (negative and repeated entries, negative axes, None), concatenate, resize, '
           'compress, tril/triu, diagflat, tri/eye/identity, the stack family (through concatenate + flat-order preservation of reshape); one-axis / '
-          'equal-section cases of expand, sliding_window and split; diagonal for matrices with every offset (partial: rank 2). The model is tied to the '
+          'cases of expand; split into equal sections and at cut-point lists (incl. the partition of the axis); sliding_window with scalar / list windows over axis / axis lists (repeats accumulate) / None; diagonal for every rank, accepted axis pair (incl. negative) and offset. The model is tied to the '
           'C++ by a differential run of every view over an exhaustive small scope on every check and cross-checked against NumPy / the documented '
           'definitions. The defects found on the original tree (negative axis in repeat / take / concatenate / stack / compress, negative take '
           'entries, repeated roll axes, diagonal with negative or too large offset, split cut points beyond the extent, arange negative count / negative '
@@ -58,10 +58,10 @@ ASSUMPTIONS = [
     'where: the broadcast rule is the simple right-aligned one (C06 proves the C++ broadcast_to equals it)',
 ]
 PARTIAL = [
-    'diagonal2d_*_partial: diagonal proved for rank 2, axes (0,1), every offset (negative, empty result); full statement (any rank, any accepted axis pair) kept in Props/C04.lean, under correspondence for every rank',
     'expand_*: proved for one axis (any accepted sign); several axes / per-axis spacings under correspondence only',
-    'slidingWindow_*: proved for a scalar window on one axis; window lists, axis lists and axis None under correspondence only',
-    'split_*: proved for N equal sections; cut-point lists under correspondence only',
+    'sliding_window*: stated on the no-wrap domain (windows >= 1, total trim of an axis <= its extent; NumPy additionally refuses a trimmed extent 0); beyond it the C++ wraps in size_t (huge extent) while the model truncates at 0 — not generated, not claimed',
+    'sliding_window: scalar window with axis None is NumPy-defined for rank 1 only (slidingWindowScalarNone_rank1); for higher ranks the C++ accepts the call (every axis shrinks, one window axis added to axis 0) — no reference, model mirrors it, not generated',
+    'splitIdx_*: cut points >= 0 (a negative cut point wraps to a huge size_t in the C++ and means from-the-end in NumPy: outside the domain); splitIdx_partition additionally needs sorted cut points',
     'where, arange, linspace, full/zeros/ones(_like): no theorem (where: plumbing over broadcast, C06/C07; generators: IMPL vs NumPy only)',
     'per-element repeats with axis None: does not instantiate in nmtools (shape_repeat multiplies the product by the repeats list); not runnable, not claimed',
 ]
